@@ -15,7 +15,7 @@ RULE = ("Tie-free training sets (Gaussian / extreme scales, random tie-free matr
         "whose exhaustive admissible label set is a singleton, must agree. (b) the five mutually monotone identifiers euclidean, squared_euclidean, "
         "average_euclidean, log_euclidean, log_squared_euclidean: prototypes, assigned labels, predictions must agree. Preconditions verified per "
         "case: training weights pairwise distinct, positive off-diagonal, bit-symmetric; for (b) the joint (train x train, train x query) weights order-isomorphic (equal dense ranks) "
-        "across the five metrics in float arithmetic. Non-trivial: pi moves a prototype and some query's nearest training sample is not its "
+        "across the five metrics; (b)'s premise is evaluated on reference transforms computed by the harness (distinct values > 1e-9 apart). Non-trivial: pi moves a prototype and some query's nearest training sample is not its "
         "conqueror; distinct = case hash.")
 ASSUMPTIONS = [
     "cases failing the tie-free / order-isomorphism precondition are rejected and counted; ambiguous queries (admissible label set > 1) are skipped and counted",
@@ -34,7 +34,7 @@ def generate(rng, tier, idx):
     part = "perm" if idx % 2 == 0 else "rescale"
     metrics = gen.SAFE_METRICS if part == "perm" else ["euclidean"]
     c = supcase.gen_case(rng, tier, metrics=metrics, force_tie_free=True, allow_pre=(part == "perm"),
-                         max_n=36 if tier == "quick" else 80)
+                         max_n=36 if tier == "quick" else 80, gclasses=(("G1", "G7", "G7S", "G7S") if part == "rescale" else None))
     n = len(c["X"])
     perm = rng.permutation(n)
     if perm[0] == 0 and n > 1:
@@ -60,6 +60,19 @@ def _joint(o, R):
     W = supcase.weights(o)
     n = len(W)
     return W, np.concatenate([W[np.triu_indices(n, 1)], R.ravel()])
+
+
+def _reference_family(o, case):
+    """Joint weights (train pairs i<j, then train x query) under the five published forms, float64, computed by the harness."""
+    import math
+    X, Q = np.array(case["X"], dtype=float), np.array(case["Q"], dtype=float).reshape(-1, len(case["X"][0]))
+    n, d = X.shape
+    iu, ju = np.triu_indices(n, 1)
+    sq = np.concatenate([((X[iu] - X[ju]) ** 2).sum(1), ((X[:, None, :] - Q[None, :, :]) ** 2).sum(2).ravel()])
+    e = np.sqrt(sq)
+    return {"euclidean": e, "squared_euclidean": sq, "average_euclidean": np.sqrt(sq / d),
+            "log_euclidean": np.array([100000 * math.log(v + 1) for v in e]),
+            "log_squared_euclidean": np.array([100000 * math.log(v + 1) for v in sq])}
 
 
 def check(case):
@@ -126,19 +139,44 @@ def check(case):
         res.cell("perm", case["metric"] if not case.get("pre") else "pre:" + case["gclass"], case["gclass"])
         return res
 
-    # ---- rescale
-    rank0 = np.unique(joint, return_inverse=True)[1]      # dense ranks: ties allowed if they are ties under every metric
+    # ---- rescale.  The premise ("a strictly increasing transform") is established on REFERENCE values computed by the harness
+    # from the published forms in float64, never on the implementation's own transformed values: a metric that clips or merges
+    # weights would otherwise excuse itself.  Required: equal dense ranks under the five forms, every pair of distinct reference
+    # values separated by > 1e-9 relative (so a few ulps of difference in a correct implementation cannot reorder them).
+    ref = _reference_family(o, case)
+    if not all(np.all(np.isfinite(v)) for v in ref.values()):
+        return res.reject("reference-weights-not-finite")
+
+    def ranks(vals):
+        u, inv = np.unique(vals, return_inverse=True)
+        if len(u) > 1 and np.min((u[1:] - u[:-1]) / np.maximum(np.abs(u[1:]), 1e-300)) <= 1e-9:
+            return None
+        return inv
+
+    rank0 = ranks(ref["euclidean"])
+    if rank0 is None:
+        return res.reject("reference-weights-too-close:euclidean")
+    # the sub-family whose float transform of this data is strictly increasing (tiny magnitudes collapse log(1+d) to 0: those
+    # members are outside the premise for this case and are left out, the others are still compared)
+    family = ["euclidean"]
+    for name in FAMILY[1:]:
+        r = ranks(ref[name])
+        if r is not None and np.array_equal(r, rank0):
+            family.append(name)
+        else:
+            res.see("family_member_outside_premise:" + name)
+    if len(family) < 2:
+        return res.reject("no-order-isomorphic-family-member")
+    nT = len(case["X"])
+    if len(np.unique(ref["euclidean"][: nT * (nT - 1) // 2])) != nT * (nT - 1) // 2:
+        return res.reject("reference-train-weights-tied")
     outs = {}
-    for name in FAMILY:
+    for name in family:
         c2 = {**case, "metric": name}
         q = supcase.run_case(c2, with_prim_hook=False, with_heap_hooks=False)
         if not q.fit.ok:
             res.violate("exception", f"C11/exception/fit/{type(q.fit.exc).__name__}", f"fit under {name} raised at {q.fit.where}")
             return res
-        Rq = supcase.query_weights(q)
-        Wq, jq = _joint(q, Rq)
-        if not tie_free(Wq) or not np.all(np.isfinite(jq)) or not np.array_equal(np.unique(jq, return_inverse=True)[1], rank0):
-            return res.reject("not-order-isomorphic:" + name)
         pq = _predict(q)
         if not pq.ok:
             res.violate("exception", f"C11/exception/predict/{type(pq.exc).__name__}", f"predict under {name} raised at {pq.where}")
@@ -146,7 +184,7 @@ def check(case):
         outs[name] = (_state(q), [int(v) for v in pq.value])
     res.see("rescale_compared")
     (_, protoE, labE), predE = outs["euclidean"]
-    for name in FAMILY[1:]:
+    for name in family[1:]:
         (_, pr, lb), pd = outs[name]
         if pr != protoE or lb != labE:
             i = next(i for i in range(n) if pr[i] != protoE[i] or lb[i] != labE[i])
@@ -159,7 +197,8 @@ def check(case):
                 res.violate("rescale", "C11/scale-dependent-prediction", f"{name} vs euclidean: query {x} predicted {predE[x]} vs {pd[x]}")
                 return res
     res.nontrivial = near_not_conq and n >= 4
-    res.cell("rescale", case["gclass"])
+    res.see("family_size_%d" % len(family))
+    res.cell("rescale", case["gclass"], "fam%d" % len(family))
     return res
 
 
